@@ -16,7 +16,7 @@ CACHE = os.path.join(ROOT, '.cache')
 # a seeded / scratch run never shares generated files with a run on /repo
 BUILD = os.path.join(ROOT, 'build') if os.path.abspath(REPO) == '/repo' else os.path.join(
     CACHE, 'build-' + hashlib.sha1(os.path.abspath(REPO).encode()).hexdigest()[:8])
-VERUS_RLIMIT = '30'
+VERUS_RLIMIT = os.environ.get('VERIF_RLIMIT', '50')
 VERUS_TIMEOUT = 900
 
 
@@ -121,7 +121,7 @@ def file_id(unit_name, probe=None):
 
 def verus_run(path, text):
     """run verus on `text` (already written to `path`); cached by content hash"""
-    h = hashlib.sha256(text.encode()).hexdigest()[:24]
+    h = hashlib.sha256((text + '\n// rlimit ' + VERUS_RLIMIT).encode()).hexdigest()[:24]
     cdir = os.path.join(CACHE, 'verus')
     os.makedirs(cdir, exist_ok=True)
     cp = os.path.join(cdir, h + '.json')
